@@ -6,7 +6,8 @@ EXTENDS Schema, Json, SequencesExt
 CONSTANTS TN,        \* type names
           AN,        \* attribute names
           RN,        \* relationship names
-          MaxTypes   \* bound on Len(types)
+          MaxTypes,  \* bound on Len(types)
+          Rich       \* TRUE: AddRel with foreign FromType, both cardinalities for AddTwoWayRel
 
 VARIABLES types, ret, hist, lastop
 vars == <<types, ret, hist, lastop>>
@@ -16,7 +17,7 @@ RelArgs1 == \* relationships given to AddRel
         a \in TN, b \in TN \cup {""}, n \in RN \cup {""}, m \in RN \cup {""} }
 RelArgs2 == \* relationships given to AddTwoWayRel (both directions, same type allowed)
     { [ft |-> a, fn |-> n, to1 |-> c, tt |-> b, tn |-> m, fo1 |-> ~c] :
-        a \in TN \cup {"zz"}, b \in TN, n \in RN \cup {""}, m \in RN \cup {""}, c \in BOOLEAN }
+        a \in TN \cup {"zz"}, b \in TN, n \in RN \cup {""}, m \in RN \cup {""}, c \in IF Rich THEN BOOLEAN ELSE {TRUE} }
 
 NoAttr == [name |-> "", k |-> "string", null |-> FALSE]
 NoRel  == [ft |-> "", fn |-> "", to1 |-> FALSE, tt |-> "", tn |-> "", fo1 |-> FALSE]
@@ -28,7 +29,8 @@ Alphabet ==
   \cup { Op("AddAttr", t, "", EmptyType(""), [name |-> a, k |-> k, null |-> (k = "int")], NoRel) :
             t \in TN \cup {"zz"}, a \in AN \cup RN \cup {""}, k \in {"string", "int", "invalid"} }
   \cup { Op("RemoveAttr", t, a, EmptyType(""), NoAttr, NoRel) : t \in TN \cup {"zz"}, a \in AN \cup {"zz"} }
-  \cup { Op("AddRel", t, "", EmptyType(""), NoAttr, r) : t \in TN \cup {"zz"}, r \in RelArgs1 }
+  \cup { Op("AddRel", p[1], "", EmptyType(""), NoAttr, p[2]) :
+            p \in { q \in (TN \cup {"zz"}) \X RelArgs1 : Rich \/ q[2].ft = q[1] \/ q[1] = "zz" } }
   \cup { Op("RemoveRel", t, n, EmptyType(""), NoAttr, NoRel) : t \in TN \cup {"zz"}, n \in RN \cup {"zz"} }
   \cup { Op("AddTwoWayRel", "", "", EmptyType(""), NoAttr, r) : r \in RelArgs2 }
 
